@@ -136,3 +136,14 @@ package contactql
 //@   assert [le_union] le <==> (lt || eq)
 //@   assert [ge_union] ge <==> (gt || eq)
 //@   assert [ne_negation] ne <==> !eq
+
+// ---- C19: under the URN redaction policy a condition on a URN property with a value is rejected
+//@ func (v *visitor) VisitCondition
+//@   requires v != nil && !isnil(v.env)
+//@   checks [urn_condition_rejected] (v.env.RedactionPolicy() == envs.RedactionPolicyURNs && value != "" && (propType == PropertyTypeURN || (propType == PropertyTypeAttribute && propKey == AttributeURN))) ==> len(v.errors) > old(len(v.errors))
+//@   checks [built_as_resolved] typeis(result, *Condition) && result.(*Condition).propType == propType && result.(*Condition).propKey == propKey && result.(*Condition).value == value
+
+// under redaction an implicit condition never becomes a URN condition
+//@ func (v *visitor) VisitImplicitCondition
+//@   requires v != nil && !isnil(v.env)
+//@   ensures [no_urn_condition] (v.env.RedactionPolicy() == envs.RedactionPolicyURNs && typeis(result, *Condition)) ==> (result.(*Condition).propType != PropertyTypeURN && !(result.(*Condition).propType == PropertyTypeAttribute && result.(*Condition).propKey == AttributeURN))
